@@ -578,6 +578,10 @@ class SimSelector(lomond.selectors.SelectorBase):
     def __init__(self, sock):
         super(SimSelector, self).__init__(sock)
         w = current()
+        if sock.fileno() == -1:
+            # what select.poll().register() / epoll / kqueue do with the descriptor of a closed socket
+            w.rec('sel_new_closed_socket', getattr(sock, 'sid', None), None)
+            raise ValueError('file descriptor cannot be a negative integer (-1)')
         self.world = w
         self.sock = sock
         self.closed = False
